@@ -144,7 +144,7 @@ class FakeSock:
 
     def getpeername(self):
         self._chk()
-        if getattr(self, "dead", False):
+        if getattr(self, "dead", False) or getattr(self, "unconnected", False):
             raise OSError(errno.ENOTCONN, os.strerror(errno.ENOTCONN))
         if self.reset or (self.broken and self.world.strict_peer) or self.ca is None:
             raise OSError(errno.ENOTCONN, os.strerror(errno.ENOTCONN))
@@ -153,6 +153,7 @@ class FakeSock:
     def connect_ex(self, ha):
         self._chk()
         self.ca_remote = ha
+        self.unconnected = False
         return 0
 
     def _chk(self):
@@ -232,6 +233,9 @@ class FakeSock:
         self._chk()
         if not self.accepts:
             raise make_exc(EAGAIN)
+        if self.accepts[0][0] == "fault":      # accept() itself fails: EMFILE, ECONNABORTED, ...
+            code = self.accepts.pop(0)[1]
+            raise OSError(code, os.strerror(code))
         ca, sends, recvs, hs, *rest = self.accepts.pop(0)
         s = self.world.new(sends=sends, recvs=recvs, hs=hs, tls=self.tls, ca=ca, ha=self.ha)
         s.dead = bool(rest and rest[0])   # the peer reset the connection before it was accepted
@@ -257,6 +261,7 @@ class _SockMod:
         else:
             sends, recvs, hs = [], [], []
         s = self.world.new(sends=sends, recvs=recvs, hs=hs, tls=self.tls, ca=self.ha, ha=("127.0.0.1", 50000 + len(self.world.socks)))
+        s.unconnected = self.ha is not None    # a client socket has no peer until connect succeeds
         return s
 
 
@@ -340,17 +345,32 @@ class _WL:
         elif mode == "ctx":
             self._cm = wiring.openWL(name="verif", temp=True, samed=True, filed=True)
             self.wl = self._cm.__enter__()
+        elif isinstance(mode, tuple) and mode[0] == "cfg":
+            # the whole flag space: ("cfg", raw format?, samed, filed, rxed, txed)
+            _, raw, samed, filed, rxed, txed = mode
+            kw = dict(samed=bool(samed), filed=bool(filed), rxed=bool(rxed), txed=bool(txed))
+            if raw:
+                kw["fmt"] = b'%(data)b'
+            if filed:
+                kw.update(temp=True, name="verif", prefix="hioverif")
+            self.wl = wiring.WireLog(**kw)
+            self.wl.reopen()
+            self.samed, self.raw, self.filed = bool(samed), bool(raw), bool(filed)
         else:
             raise core.Infra(f"bad wire log mode {mode!r}")
+        if not isinstance(mode, tuple):
+            self.samed, self.raw, self.filed = mode in ("samed", "ctx"), mode == "raw", mode in ("file", "ctx")
 
     def read(self, who=None):
         """(tx bytes, rx bytes) recorded, in order; for the formatted modes the log must parse completely into entries
         `\\n<Rx|Tx> <who>:\\n<data>\\n` (data restricted to [a-z] by the generators) and `who` must be the expected address"""
         import re
         tx, rx = bytes(self.wl.readTx() or b""), bytes(self.wl.readRx() or b"")
-        if self.mode == "raw":
+        if self.raw:
+            if self.samed:    # one log without direction marks: the interleaving of both directions, compared as a whole
+                return (tx or rx), b"?samed-raw"
             return tx, rx
-        logs = [tx] if self.mode in ("samed", "ctx") else [tx, rx]
+        logs = [tx or rx] if self.samed else [tx, rx]
         outs = {b"Tx": b"", b"Rx": b""}
         for i, log in enumerate(logs):
             pos = 0
@@ -360,7 +380,7 @@ class _WL:
                 pos = m.end()
                 if who is not None and m.group(2) != str(who).encode():
                     return b"?who", b"?who"
-                if self.mode not in ("samed", "ctx") and m.group(1) != (b"Tx", b"Rx")[i]:
+                if not self.samed and m.group(1) != (b"Tx", b"Rx")[i]:
                     return b"?wrong-log", b"?wrong-log"
                 outs[m.group(1)] += m.group(3)
             if pos != len(log):
@@ -372,7 +392,7 @@ class _WL:
             if self._cm is not None:
                 self._cm.__exit__(None, None, None)
             else:
-                self.wl.close(clear=True) if self.mode == "file" else self.wl.close()
+                self.wl.close(clear=True) if self.filed else self.wl.close()
         except Exception:
             pass
 
@@ -388,14 +408,16 @@ def wl_read(wl):
 # --------------------------------------------------------------------------
 # one connection object of each of the four kinds, sitting on a scripted fake socket
 
-def make_conn(kind, sends, recvs, hs=(), wl=None, tymth=None, world=None, bs=None):
+def make_conn(kind, sends, recvs, hs=(), wl=None, tymth=None, world=None, bs=None, extra=None):
     """returns (obj, fakesock).  Clients go through the real open()/accept() path via the patched socket name."""
     with nowrap():
-        return _make_conn(kind, sends, recvs, hs, wl, tymth, world, bs)
+        return _make_conn(kind, sends, recvs, hs, wl, tymth, world, bs, extra)
 
 
-def _make_conn(kind, sends, recvs, hs, wl, tymth, world, bs=None):
+def _make_conn(kind, sends, recvs, hs, wl, tymth, world, bs=None, extra=None):
     kw = {} if bs is None else {"bs": bs}
+    if extra and kind.startswith("client"):     # parameters only the client classes take (caller-owned rxbs / txbs)
+        kw.update(extra)
     clienting, serving, TClientTls, TRemoterTls = classes()
     world = world or World()
     tls = is_tls(kind)
@@ -515,6 +537,37 @@ def probe_reopen_clears():
     return not any(e[0] == "ix" for e in last)
 
 
+CONNECT_NAMES = {0: "connected", 1: "retry", 2: "reopen", 3: "raisedOS", 4: "raisedOther", 5: "unexpected"}
+
+
+def probe_connect(code):
+    """Client.accept() when connect_ex returns `code`: 0 connected | 1 try again later | 2 reopened, try again | 3/4 raised"""
+    clienting, serving, _, _ = classes()
+    world = World()
+    mod = _SockMod(world, tls=False, ha=("127.0.0.1", PORT))
+    with patched(clienting, socket=mod):
+        obj = clienting.Client(ha=("127.0.0.1", PORT))
+        obj.reopen()
+        s0 = obj.cs
+
+        def connect_ex(ha):
+            if code in (0, errno.EISCONN):
+                s0.unconnected = False
+            return code
+        s0.connect_ex = connect_ex
+        try:
+            r = obj.accept()
+        except BaseException as ex:
+            return 3 if isinstance(ex, OSError) else 4
+        if r is True and obj.accepted and obj.cs is s0:
+            return 0
+        if r is False and not obj.accepted and obj.cs is s0 and not s0.closed:
+            return 1
+        if r is False and not obj.accepted and s0.closed and obj.cs is not None and obj.cs is not s0:
+            return 2
+        return 5
+
+
 _TABLES = None
 
 
@@ -555,17 +608,33 @@ def run_conn(case, with_hards=False):
     final = (txbs, rxbs, kacc, kdel, wireTx|None, wireRx|None, cutoff)"""
     kind, use_wl, ops, sends, recvs = case[:5]
     bs = case[5] if len(case) > 5 else None   # the object's .bs buffer size (None = the class default, 8096)
-    mode = "raw" if use_wl is True else use_wl
+    own = case[6] if len(case) > 6 else None  # None | b"" | bytes: the CALLER supplies rxbs (empty) and txbs (holding these bytes);
+    #                                           the history then writes to / reads from the caller's objects, not obj.txbs / obj.rxbs
+    own_tx = own_rx = None
+    extra = None
+    if own is not None and kind.startswith("client"):
+        own_tx, own_rx = bytearray(own), bytearray()
+        extra = dict(txbs=own_tx, rxbs=own_rx)
+    mode = "raw" if use_wl is True else (tuple(use_wl) if isinstance(use_wl, (list, tuple)) else use_wl)
     W = _WL(mode) if mode else None
     wl = W.wl if W else None
     try:
-        obj, s = make_conn(kind, sends, recvs, [("ok",)] if is_tls(kind) else [], wl=wl, bs=bs)
+        obj, s = make_conn(kind, sends, recvs, [("ok",)] if is_tls(kind) else [], wl=wl, bs=bs, extra=extra)
+        txb = own_tx if own_tx is not None else obj.txbs      # where the application puts / looks
+        rxb = own_rx if own_rx is not None else obj.rxbs
         steps = []
         hards_at = []
+        if own:     # the bytes the caller's txbs held at construction count as handed over first
+            steps.append(("ok", 0, len(txb), 0, bool(obj.cutoff), None))
+            hards_at.append(())
         for op in ops:
             ret = [None]
+            if own_tx is not None:
+                txb, rxb = own_tx, own_rx
+            else:
+                txb, rxb = obj.txbs, obj.rxbs
             if op[0] == "tx":
-                st = _status(lambda: obj.tx(op[1]))
+                st = _status((lambda: own_tx.extend(op[1])) if own_tx is not None else (lambda: obj.tx(op[1])))
             elif op[0] == "ss":
                 st = _status(obj.serviceSends)
             elif op[0] == "sr":
@@ -596,14 +665,14 @@ def run_conn(case, with_hards=False):
                     st = _status(both)
             else:
                 raise core.Infra(f"bad op {op!r}")
-            steps.append((st, len(s.kacc), len(obj.txbs), len(obj.rxbs), bool(obj.cutoff), ret[0]))
+            steps.append((st, len(s.kacc), len(txb), len(rxb), bool(obj.cutoff), ret[0]))
             hards_at.append(tuple(s.hards))
         if W:
             who = obj.ha if kind.startswith("client") else obj.ca
             wt, wr = W.read(who)
         else:
             wt, wr = None, None
-        final = (bytes(obj.txbs), bytes(obj.rxbs), bytes(s.kacc), bytes(s.kdel), wt, wr, bool(obj.cutoff))
+        final = (bytes(txb), bytes(rxb), bytes(s.kacc), bytes(s.kdel), wt, wr, bool(obj.cutoff))
         if with_hards:
             return (tuple(steps), final, tuple(hards_at))
         return (tuple(steps), final)
@@ -626,6 +695,7 @@ def run_server(case):
     """case = (tls, ops); ops:
        ("conn", ca, sends, recvs, hs)  a peer connects (queued on the listen socket)
        ("dconn", ca)  a peer connects and resets before being accepted (getpeername() on its socket raises ENOTCONN)
+       ("afault", errno)  the listen socket's accept() raises this (non-EAGAIN) OSError at that position of its queue
        ("svc",) | ("tx", ca, bytes) | ("rm", ca) | ("close",) | ("reopen",)
        ("reopenf", "bind"|"listen", errno)  reopen() whose new listen socket cannot bind / listen (OSError)
     observation = tuple of (status, socks) per op, socks = per socket in creation order:
@@ -636,7 +706,8 @@ def run_server(case):
     swl = None
     if wlcfg is not None:
         from hio.core import wiring
-        swl = wiring.WireLog(samed=False, filed=False)    # a plain WireLog() is closed until reopen()
+        wflags = case[4] if len(case) > 4 else (True, True)       # (txed, rxed)
+        swl = wiring.WireLog(samed=False, filed=False, txed=bool(wflags[0]), rxed=bool(wflags[1]))    # closed until reopen()
         if wlcfg:
             swl.reopen()
     clienting, serving, TClientTls, TRemoterTls = classes()
@@ -680,8 +751,8 @@ def run_server(case):
             ops = list(ops) + [("close",)]     # leaving the with block
         else:
             server = cls(**kw)
-            if via == "doer":
-                doer = serving.ServerDoer(server=server)
+            if via in ("doer", "echo"):    # echo: EchoServerDoer, whose recur() also queues what was received back to the peer
+                doer = (serving.EchoServerDoer if via == "echo" else serving.ServerDoer)(server=server)
                 st0 = _status(doer.enter)
             else:
                 st0 = "ok" if server.reopen() else "openfail"
@@ -692,6 +763,10 @@ def run_server(case):
                 _, ca, sends, recvs, hs = op
                 if listeners and not listeners[-1].closed:
                     listeners[-1].accepts.append((_ca(ca), list(sends), list(recvs), list(hs)))
+                st = "ok"
+            elif k == "afault":   # when the listen socket's queue gets this far, accept() raises this OSError
+                if listeners and not listeners[-1].closed:
+                    listeners[-1].accepts.append(("fault", op[1]))
                 st = "ok"
             elif k == "dconn":   # a peer connects and resets before the server accepts
                 if listeners and not listeners[-1].closed:
@@ -815,12 +890,15 @@ def _run_client(tls, recon, tmo, ops, via="direct"):
 
         def connect_ex(ha, s=s):
             s._chk()
+            if nxt["rc"] in (0, errno.EISCONN):
+                s.unconnected = False
             return nxt["rc"]
         s.connect_ex = connect_ex
         return s
     mod.socket = mk
     with patched(clienting, socket=mod), nowrap():
-        kw = dict(ha=("127.0.0.1", PORT), tymth=tymist.tymen(), reconnectable=bool(recon), tymeout=tmo * UNIT)
+        own_tx, own_rx = bytearray(), bytearray()     # caller-owned (and empty) buffers: the client must use THESE objects
+        kw = dict(ha=("127.0.0.1", PORT), tymth=tymist.tymen(), reconnectable=bool(recon), tymeout=tmo * UNIT, txbs=own_tx, rxbs=own_rx)
         if tls:
             kw.update(context=shared_client_context(), certedhost="localhost")
         cls = TClientTls if tls else clienting.Client
@@ -861,13 +939,13 @@ def _run_client(tls, recon, tmo, ops, via="direct"):
                     obj.cs.sends += [tuple(x) for x in op[1]]
                     obj.cs.recvs += [tuple(x) for x in op[2]]
                 st = "ok"
-            elif k == "tx":
-                st = _status(lambda: obj.tx(op[1]))
+            elif k == "tx":    # alternately through the method and straight into the caller's own buffer
+                st = _status((lambda: obj.tx(op[1])) if iop % 2 == 0 else (lambda: own_tx.extend(op[1])))
             else:
                 raise core.Infra(f"bad op {op!r}")
             cur = obj.cs.sid if obj.cs is not None else None
-            out.append((st, tuple(world.open_ids()), cur, bool(obj.connected), bool(obj.cutoff), len(obj.rxbs), len(obj.txbs),
-                        b"".join(bytes(x.kacc) for x in world.socks), bytes(obj.txbs)))
+            out.append((st, tuple(world.open_ids()), cur, bool(obj.connected), bool(obj.cutoff), len(own_rx), len(own_tx),
+                        b"".join(bytes(x.kacc) for x in world.socks), bytes(own_tx)))
     return tuple(out)
 
 
@@ -899,16 +977,59 @@ def resp_len():
     return _RESP_LEN
 
 
+HTTP_DEFAULT_TMO = 40     # http.Server.Tymeout = 5.0 s, the documented default, in UNITs
+TCP_DEFAULT_TMO = 8       # tcp.Server.Tymeout = 1.0 s
+ROUTES = ("arg", "none", "subclass", "classattr", "servant", "servant-default")
+
+
+def effective_tymeout(tmo, route):
+    """the tymeout (UNITs) the connections of the server must get, by the documented precedence: an explicit number; else
+    the class attribute Tymeout of the (sub)class; a servant passed in brings its own (its argument, else tcp's class default)"""
+    return {"arg": tmo, "none": HTTP_DEFAULT_TMO, "subclass": tmo, "classattr": tmo, "servant": tmo, "servant-default": TCP_DEFAULT_TMO}[route]
+
+
+def connection_persistent(ver10, inhead, connval):
+    """RFC 7230 token-list semantics of the Connection header (comma separated, optional whitespace, case-insensitive)"""
+    tokens = [t.strip().lower() for t in bytes(connval).decode("latin-1").split(",")]
+    if ver10 and not inhead:     # a head already started was started as HTTP/1.1
+        return "keep-alive" in tokens
+    return "close" not in tokens
+
+
+def resolve_reqh(ops):
+    """the op list with every ("reqh", ca, ver10, connval) replaced by ("reqh", ca, persistent if sent as a whole,
+    persistent if it completes a head already started as HTTP/1.1) — the classes the RFC gives it"""
+    out = []
+    for op in ops:
+        if op[0] == "reqh":
+            out.append(("reqh", op[1], connection_persistent(op[2], False, op[3]), connection_persistent(op[2], True, op[3])))
+        else:
+            out.append(tuple(op))
+    return out
+
+
 def run_idle(case, UNIT=UNIT):
     """case = (tls, tymeout, ops) with tymeout and tick amounts in UNITs (UNIT = 1/8 s, or a non-dyadic 0.1 s); ops:
        ("settmo", t) the tcp server's .tymeout attribute is changed: connections accepted from now on get it
        ("conn", ca) | ("tick", d) | ("data", ca, n) n pad bytes of a never-finished request arrive
        ("req", ca) a complete persistent HTTP/1.1 request arrives | ("req10", ca) a complete non-persistent HTTP/1.0 request
+       ("reqh", ca, ver10, connval) a complete request of that version with the header `Connection: <connval>`
        ("cap", ca, k) from now on the connection's socket takes k bytes per send (0 = would block)
        ("wind", t) the server is re-wound onto a tymist whose tyme is t | ("svc",)
     observation per op: (status, per connection in creation order: (state, |txbs|, bytes the socket has accepted so far)),
     state = pending | open (still in servant.ixes and socket not closed) | closed"""
-    tls, tymeout, ops = case
+    tls, tymeout, ops = case[:3]
+    route = (case[3] if len(case) > 3 else None) or ("servant" if tls else "arg")
+    wlmode = case[4] if len(case) > 4 else None      # an optional collaborator: a WireLog (any configuration) attached to the server
+    W = _WL(tuple(wlmode) if isinstance(wlmode, (list, tuple)) else wlmode) if wlmode else None
+    try:
+        return _run_idle(tls, tymeout, ops, route, W, UNIT)
+    finally:
+        if W:
+            W.close()
+
+
+def _run_idle(tls, tymeout, ops, route, W, UNIT):
     from hio.base import tyming
     from hio.core.http import serving as hserving
     clienting, serving, _, _ = classes()
@@ -925,12 +1046,32 @@ def run_idle(case, UNIT=UNIT):
         return None
     with patched(serving, socket=mod), nowrap():
         tymist = tyming.Tymist(tyme=0.0, tock=UNIT)
+        scls = serving.ServerTls if tls else serving.Server
+        skw = dict(host="127.0.0.1", port=PORT)
         if tls:
-            servant = serving.ServerTls(host="127.0.0.1", port=PORT, context=shared_context(), tymeout=tymeout * UNIT)
-            server = hserving.Server(servant=servant, app=_app, port=PORT)
+            skw["context"] = shared_context()
+        hkw = {}
+        if W is not None:
+            skw["wl"] = W.wl     # when a servant is passed in
+            hkw["wl"] = W.wl     # when the http server makes its own
+        if route == "servant":
+            server = hserving.Server(servant=scls(tymeout=tymeout * UNIT, **skw), app=_app, port=PORT, tymeout=999.0)
+        elif route == "servant-default":
+            server = hserving.Server(servant=scls(**skw), app=_app, port=PORT)
+        elif route == "arg":
+            server = hserving.Server(host="127.0.0.1", port=PORT, app=_app, tymeout=tymeout * UNIT, **hkw)
+        elif route == "none":
+            server = hserving.Server(host="127.0.0.1", port=PORT, app=_app, tymeout=None, **hkw)
+        elif route == "subclass":
+            class SubServer(hserving.Server):
+                Tymeout = tymeout * UNIT
+            server = SubServer(host="127.0.0.1", port=PORT, app=_app, **hkw)
+        elif route == "classattr":
+            with patched(hserving.Server, Tymeout=tymeout * UNIT):
+                server = hserving.Server(host="127.0.0.1", port=PORT, app=_app, tymeout=None, **hkw)
         else:
-            server = hserving.Server(host="127.0.0.1", port=PORT, app=_app, tymeout=tymeout * UNIT)
-            servant = server.servant
+            raise core.Infra(f"bad route {route!r}")
+        servant = server.servant
         server.wind(tymist.tymen())
         if not server.reopen():
             raise core.Infra("fake listen socket failed to open")
@@ -952,13 +1093,17 @@ def run_idle(case, UNIT=UNIT):
                 s = sock_of(op[1])
                 if s is not None and not s.closed:
                     s.default_acc = op[2]
-            elif k in ("data", "req", "req10"):
+            elif k in ("data", "req", "req10", "reqh"):
                 s = sock_of(op[1])
                 if s is not None and not s.closed:
                     inhead = getattr(s, "inhead", False)
                     if k == "data":
                         s.recvs.append(("d", (b"" if inhead else REQ_HEAD) + b"a" * op[2]))
                         s.inhead = True
+                    elif k == "reqh":   # a complete request carrying a Connection header (a list of options)
+                        conn = b"Connection: " + bytes(op[3]) + b"\r\nContent-Length: 0\r\n\r\n"
+                        s.recvs.append(("d", (b"\r\n" + conn) if inhead else (b"GET /x HTTP/1.%d\r\nHost: h\r\n" % (0 if op[2] else 1)) + conn))
+                        s.inhead = False
                     else:   # complete the request that is under way, or send a whole one
                         s.recvs.append(("d", b"\r\nContent-Length: 0\r\n\r\n" if inhead else (REQ_FULL11 if k == "req" else REQ_FULL10)))
                         s.inhead = False
@@ -1106,8 +1251,11 @@ def gen_server_ops(rng, tls, focus, tier="quick"):
             ops.append(("tx", rng.randrange(1, ncas + 1), gen_bytes(rng, rng.choice([0, 1, 3, 8, 20]))))
         elif r < 0.85:
             ca = rng.randrange(1, ncas + 1)   # a new peer, possibly from an address already connected
-            if rng.random() < 0.2:
-                ops.append(("dconn", rng.choice([ca, ncas + 1])))
+            if rng.random() < 0.25:
+                ops.append(("dconn", rng.choice([ca, ca, ncas + 1])))
+                if rng.random() < 0.6:
+                    ops.append(("svc",))      # the dead arrival is serviced on its own, the older connection from that address lives on
+                    continue
             ops.append(mkconn(ca))
         elif rng.random() < 0.3:
             ops.append(("rxix", rng.randrange(1, ncas + 2)))     # serviceReceivesIx, possibly for an unknown address
@@ -1117,8 +1265,13 @@ def gen_server_ops(rng, tls, focus, tier="quick"):
                 ops.append(("rm", rng.randrange(1, ncas + 1)))
             elif k < 0.4:
                 ops.append(rng.choice([("closeix", rng.randrange(1, ncas + 2)), ("closeall",)]))
-            elif k < 0.55:
+            elif k < 0.5:
                 ops.append(("close",))
+            elif k < 0.57:
+                # several peers in the backlog and accept() failing somewhere among them (descriptor table full, aborted, ...)
+                burst = [mkconn(rng.randrange(1, ncas + 1)) for _ in range(rng.randrange(1, 4))]
+                burst.insert(rng.randrange(0, len(burst) + 1), ("afault", rng.choice([errno.EMFILE, errno.EMFILE, errno.ENFILE, errno.ECONNABORTED, errno.ENOBUFS, errno.EPERM])))
+                ops += burst + [("svc",)] * rng.choice([1, 1, 2])
             elif k < 0.65:
                 for _ in range(rng.choice([1, 1, 2, 3])):
                     ops.append(("reopenf", rng.choice(["bind", "bind", "listen"]), rng.choice([errno.EADDRINUSE, errno.EADDRINUSE, errno.EACCES, errno.EADDRNOTAVAIL])))
@@ -1135,9 +1288,12 @@ def gen_server_ops(rng, tls, focus, tier="quick"):
     return ops
 
 
-def request_server(case_ops):
+def request_server(case_ops, via="direct"):
     out = []
     for op in case_ops:
+        if via == "echo" and op[0] == "svc":
+            out.append(("svce",))
+            continue
         if op[0] == "conn":
             out.append(("conn", op[1], [tuple(x) for x in op[2]], [tuple(x) for x in op[3]], [tuple(x) for x in op[4]]))
         else:
@@ -1329,7 +1485,8 @@ def run_real_stream(case):
 
 def run_real_faults(case):
     """C10. case = ("realsrv", tls, how 'rst'|'fin', point, nmsg): two raw peers talk to an echoing server; peer 0 dies
-    (`how`) after `point` messages; the server keeps being serviced.  For TLS the peers never handshake, peer 0 dies with the
+    (`how`) after `point` messages (-1: before it is accepted; -2: after being serviced, and a second connection from its very
+    address resets before accept); the server keeps being serviced.  For TLS the peers never handshake, peer 0 dies with the
     handshake pending.  observation = (raised, victim_marked, sibling_ok)"""
     _, tls, how, point, nmsg = case
 
@@ -1338,7 +1495,8 @@ def run_real_faults(case):
         peers = []
         try:
             server, port = open_real_server(tls)
-            peers = [raw_peer(port), raw_peer(port)]
+            lport = free_port() if point == -2 else None
+            peers = [raw_peer(port, lport), raw_peer(port)]
             cas = [p.getsockname() for p in peers]
             raised = False
             echoed = [b"", b""]
@@ -1356,10 +1514,20 @@ def run_real_faults(case):
                             ixr.tx(bytes(ixr.rxbs))
                             ixr.clearRxbs()
             dead = False
-            if point < 0:   # reset before the server has even accepted the connection
+            if point == -1:   # reset before the server has even accepted the connection
                 rst_close(peers[0])
                 dead = True
             svc()
+            if point == -2:
+                # the victim is connected and serviced, resets, and a NEW connection from the very same address resets before it
+                # is accepted — while the server still lists the old one and has not yet noticed that it is gone
+                rst_close(peers[0])
+                dead = True
+                try:
+                    rst_close(raw_peer(port, lport))
+                except (Retry, OSError):
+                    pass          # the kernel would not give us the same address again: plain reset scenario then
+                svc()
             for m in range(nmsg):
                 if m == point and not dead:
                     (rst_close if how == "rst" else _socket.socket.close)(peers[0])
@@ -1425,6 +1593,7 @@ def run_real_faults(case):
 def run_real_life(case):
     """C11. case = ("real", tls, ops); ops: ("peer", slot) a raw peer connects from local port slot `slot` (same slot again =
     same address: the old peer is reset first) | ("svc",) | ("drop", slot) peer resets | ("close",) | ("reopen",)
+    | ("afault", k) during the next service pass accept() succeeds k more times and then raises EMFILE once
     | ("clash",) a second server is configured for the same address, fails to open twice and is closed
     The harness keeps a reference to every socket object the server obtained (so the GC cannot close anything).
     observation per close/reopen op: (number of sockets obtained so far, how many are still open); last entry: descriptor delta"""
@@ -1439,18 +1608,15 @@ def run_real_life(case):
 
         def init(self, *a, **kw):
             orig_init(self, *a, **kw)
-            if self.cs is not None:
+            if self.cs is not None and not any(x is self.cs for x in seen):
                 seen.append(self.cs)
 
         def wrap(self):
             orig_wrap(self)
             seen.append(self.cs)
 
-        def aopen(self):
-            r = orig_open(self)
-            if self.ss is not None and not any(x is self.ss for x in seen):
-                seen.append(self.ss)
-            return r
+        def aopen(self):     # (listen sockets are remembered by RecMod when they are created)
+            return orig_open(self)
 
         class RecMod:
             """the name `socket` inside hio.core.tcp.serving: real sockets, but every one created is remembered (also the
@@ -1462,7 +1628,28 @@ def run_real_life(case):
             def socket(self, *a, **kw):
                 s = _socket.socket(*a, **kw)
                 seen.append(s)
-                return s
+                return AcceptProxy(s)
+
+        class AcceptProxy:
+            """a real listen socket whose accept() can be told to fail (EMFILE) after some more successful accepts; every
+            socket it does hand out is remembered"""
+
+            def __init__(self, s):
+                self.__dict__["_s"] = s
+                self.__dict__["fail_after"] = None
+
+            def __getattr__(self, name):
+                return getattr(self._s, name)
+
+            def accept(self):
+                if self.fail_after is not None:
+                    if self.fail_after == 0:
+                        self.__dict__["fail_after"] = None
+                        raise OSError(errno.EMFILE, os.strerror(errno.EMFILE))
+                    self.__dict__["fail_after"] -= 1
+                cs, ca = self._s.accept()
+                seen.append(cs)
+                return cs, ca
         gc.collect()
         fd0 = len(os.listdir("/proc/self/fd"))
         server = None
@@ -1494,6 +1681,9 @@ def run_real_life(case):
                     elif k == "close":
                         server.close()
                         out.append((len(seen), sum(1 for s in seen if s.fileno() != -1)))
+                    elif k == "afault":   # the next service pass: op[1] accepts succeed, then accept() fails once
+                        if server.ss is not None:
+                            server.ss.fail_after = op[1]
                     elif k == "clash":
                         # a second server configured for the address the first one holds: its reopen() fails to bind (twice),
                         # then it is closed; nothing it created may stay open
@@ -1602,13 +1792,17 @@ def run_real_idle(case):
                 elif k == "wind":
                     tymist = tyming.Tymist(tyme=op[1] * UNIT, tock=UNIT)
                     st = _status(lambda: server.wind(tymist.tymen()))
-                elif k in ("data", "req", "req10"):
+                elif k in ("data", "req", "req10", "reqh"):
                     p = peers.get(op[1])
                     ca = p.getsockname() if p is not None and not eof[op[1]] else None
                     if ca is not None and ca in server.servant.ixes:
                         ih = inhead.get(op[1], False)
-                        msg = ((b"" if ih else REQ_HEAD) + b"a" * op[2]) if k == "data" else \
-                            (b"\r\nContent-Length: 0\r\n\r\n" if ih else (REQ_FULL11 if k == "req" else REQ_FULL10))
+                        if k == "reqh":
+                            conn = b"Connection: " + bytes(op[3]) + b"\r\nContent-Length: 0\r\n\r\n"
+                            msg = (b"\r\n" + conn) if ih else (b"GET /x HTTP/1.%d\r\nHost: h\r\n" % (0 if op[2] else 1)) + conn
+                        else:
+                            msg = ((b"" if ih else REQ_HEAD) + b"a" * op[2]) if k == "data" else \
+                                (b"\r\nContent-Length: 0\r\n\r\n" if ih else (REQ_FULL11 if k == "req" else REQ_FULL10))
                         inhead[op[1]] = (k == "data")
                         try:
                             p.send(msg)
@@ -1800,7 +1994,8 @@ def run_real_client_rst(case):
     return with_retries(go)
 
 
-RCS = [0, 0, errno.EINPROGRESS, errno.EALREADY, errno.ECONNREFUSED, errno.EINVAL, errno.EISCONN, errno.ETIMEDOUT]
+RCS = [0, 0, errno.EINPROGRESS, errno.EALREADY, errno.ECONNREFUSED, errno.EINVAL, errno.EISCONN, errno.ETIMEDOUT,
+       errno.EAGAIN] + CONN_FAULTS    # every result connect_ex can report for a failing / pending connection
 
 
 def gen_client_ops(rng, tls, tmo, early_tx=False):
